@@ -5,3 +5,17 @@ add('C09', 'exhaustive enumeration of finite codec domains against an independen
     'each width boundary. Exhaustive inside those bounds, sampled beyond (boundaries up to 2^32-1 at header level).',
     'Trusted: refpgp.wire arithmetic (self-tested against the RFC 4880 examples at start-up); Python int/bytes. Bodies > 70000 octets only at header level.',
     'DESIGN.md 4/C09')
+add('C01', 'metamorphic property-based testing (Hypothesis + covering matrix): valid triple -> semantic mutation -> verdict must not be truthy; reference verifier filters non-semantic mutations',
+    'For 25 pooled keys (RSA/DSA/ECDSA on 4 curves/EdDSA, incl. signing subkeys) x 6 hashes x 22 signature kinds x 4 carriers, ~37 mutation classes of '
+    'subject, signature packet and verifying key are applied by byte surgery; PGPy must answer falsy or raise. A covering matrix guarantees every kind x '
+    'applicable mutation class x carrier per algorithm family in each run; Hypothesis explores parameters beyond it.',
+    'Trusted: refpgp.sig decides whether a mutation is semantic (self-tested on GnuPG-made fixtures); cryptography primitives. Not asserted: left-16-bit field, '
+    'DSA/ECDSA (r,n-s) malleability, non-canonical MPI bit counts in key packets (same integers).',
+    'DESIGN.md 4/C01')
+add('C03', 'differential + round-trip property-based testing (Hypothesis + covering matrix) against an independent RFC 4880/6637 encryptor/decryptor',
+    'PGPy-encrypted messages (9 ciphers x RSA/ECDH on 5 curves incl. edge keys and non-default KDF parameters x passphrases with 7 S2K hashes x 1-4 mixed '
+    'recipients x 4 compressions x body classes up to 70 KB x signed/unsigned x armored/binary) are decrypted per recipient by PGPy and by refpgp.enc and compared '
+    'with the original content, metadata and signatures; refpgp.enc-made messages (SKESK with/without ESK, salted/iterated, SEIPD/tag 9, old/new/partial '
+    'inner headers) must decrypt under PGPy to the original.',
+    'Trusted: refpgp.enc (own S2K, RFC 6637 KDF, RFC 3394 wrap, CFB, MDC) sharing only block ciphers/RSA/ECDH primitives and hashlib with PGPy.',
+    'DESIGN.md 4/C03')
